@@ -6,18 +6,35 @@
 (* typification, arguments, dependency edges) must equal the specification's content and     *)
 (* from-scratch Analysis.                                                                     *)
 EXTENDS SchemaOps, Json, IOUtils
-VARIABLES l, seen
+VARIABLES l, seen, snap
 TraceLog == ndJsonDeserialize(IOEnv.TRACE)
-tvars == <<order, cst, trk, l, seen>>
+tvars == <<order, cst, trk, l, seen, snap>>
 NoObs == [none |-> TRUE]
 Ev == TraceLog[l]
-TInit == SInit /\ l = 1 /\ seen = NoObs
-Consume == l' = l + 1 /\ seen' = (IF "obs" \in DOMAIN Ev THEN Ev.obs ELSE NoObs)
+NoSchema == [ord |-> <<>>, c |-> <<>>]
+Here == [ord |-> order, c |-> cst]
+TInit == SInit /\ l = 1 /\ seen = NoObs /\ snap = NoSchema
+\* C12 on the live schema: an equation table {k, v, m} (m: whose texts the survivor keeps) - SchemaOps!EquateT
+TableFn(tb) == [k \in {tb[i].k : i \in DOMAIN tb} |-> tb[CHOOSE i \in DOMAIN tb : tb[i].k = k].v]
+ModeKeys(tb, m) == {tb[i].k : i \in {j \in DOMAIN tb : tb[j].m = m}}
+EqModel ==
+  LET E == TableFn(Ev.table)  ok == EqAdmissible(Here, E) IN
+  [ok |-> ok, tr |-> IF ok THEN LET r == EquateT(Here, trk, E, ModeKeys(Ev.table, "del"), ModeKeys(Ev.table, "new")) IN [u \in DOMAIN cst |-> FinalOf(u, r.pairs, 16)] ELSE <<>>]
+Consume == l' = l + 1 /\ seen' = (IF "obs" \in DOMAIN Ev THEN (IF Ev.e = "Equate" THEN [model |-> EqModel] @@ Ev.obs ELSE Ev.obs) ELSE NoObs)
 DefOf(t) == IF t.id = "NODEF" THEN NoDef ELSE t
 TNext ==
   /\ l <= Len(TraceLog)
   /\ Consume
-  /\ CASE Ev.e = "Reset" -> order' = <<>> /\ cst' = <<>> /\ trk' = <<>>
+  /\ IF Ev.e \in {"Reset", "Snapshot", "Synth", "Equate"} THEN TRUE ELSE snap' = snap
+  /\ CASE Ev.e = "Reset" -> order' = <<>> /\ cst' = <<>> /\ trk' = <<>> /\ snap' = NoSchema
+       [] Ev.e = "Snapshot" -> snap' = Here /\ UNCHANGED svars                 \* a copy of the schema is kept as a second operand
+       [] Ev.e = "Synth" -> UNCHANGED <<svars, snap>>                          \* builds a new schema from the live one and the copy
+       [] Ev.e = "Equate" ->
+            LET E == TableFn(Ev.table) IN
+            /\ snap' = snap
+            /\ IF EqAdmissible(Here, E)
+               THEN LET r == EquateT(Here, trk, E, ModeKeys(Ev.table, "del"), ModeKeys(Ev.table, "new")) IN order' = r.ord /\ cst' = r.c /\ trk' = r.t
+               ELSE UNCHANGED svars
        [] Ev.e = "Emplace" -> Emplace(Ev.k, DefOf(Ev.def), Ev.fresh)
        [] Ev.e = "InsertCopy" ->
             \* the identifier actually used is logged: it is the record's own when that was free
@@ -68,5 +85,26 @@ PropExtract ==
             IN /\ x.members = ex.order
                /\ x.aliases = [i \in DOMAIN ex.order |-> ex.cst[ex.order[i]].alias]
                /\ Captures(cst, R, ex) \/ x.oks = [i \in DOMAIN ex.order |-> an[cst[ex.order[i]].alias].ok]
+\* C12 on recorded equations and syntheses
+PropEquate ==
+  (seen # NoObs /\ "eq" \in DOMAIN seen) =>
+    /\ seen.eq.accepted = seen.model.ok /\ seen.eq.equatable = seen.eq.accepted
+    /\ seen.model.ok => /\ Len(seen.eq.tr) = Cardinality(DOMAIN seen.model.tr)
+                         /\ \A i \in DOMAIN seen.eq.tr : seen.eq.tr[i].u \in DOMAIN seen.model.tr /\ seen.model.tr[seen.eq.tr[i].u] = seen.eq.tr[i].img
+PairFn(tb) == [k \in {tb[i].k : i \in DOMAIN tb} |-> tb[CHOOSE i \in DOMAIN tb : tb[i].k = k].v]
+PropSynth ==
+  (seen # NoObs /\ "syn" \in DOMAIN seen) =>
+    LET x == seen.syn
+        r == Synth(Here, snap, PairFn(x.table), x.fresh)
+    IN /\ seen.order = order
+       /\ x.defined = r.defined /\ x.agree
+       /\ r.defined =>
+            LET an == Analysis(r.c) IN
+            /\ Len(x.items) = Len(r.ord)
+            /\ \A i \in DOMAIN r.ord : LET u == r.ord[i]  it == x.items[i]  a == an[r.c[u].alias] IN
+                 /\ it.uid = u /\ it.alias = r.c[u].alias /\ it.kind = r.c[u].kind /\ it.ok = a.ok /\ (a.ok => it.type = TypeStr(a.type))
+            /\ \A i \in DOMAIN x.t1 : x.t1[i].u \in DOMAIN r.t1 /\ r.t1[x.t1[i].u] = x.t1[i].img
+            /\ \A i \in DOMAIN x.t2 : x.t2[i].u \in DOMAIN r.t2 /\ r.t2[x.t2[i].u] = x.t2[i].img
+            /\ Len(x.t1) = Cardinality(DOMAIN cst) /\ Len(x.t2) = Cardinality(DOMAIN snap.c)
 TraceAccepted == TLCGet("stats").diameter - 1 = Len(TraceLog)
 =============================================================================
